@@ -59,13 +59,38 @@ fn run_finder_opt(
         log.oblige("orf_repeated_codon");
     }
     let finder0 = Finder::new(starts.iter().collect(), stops.iter().collect(), min_len);
-    let finder = if forks {
-        log.oblige("orf_finder_cloned");
-        finder0.clone()
+    // with `forks`: a copy of the Finder (clone / serde round trip / clone_from into a used Finder of another
+    // configuration); the copy serves the even sequences and the forks, the original the odd ones
+    let salt = starts.len() + 2 * stops.len() + min_len + seqs.first().map(|t| t.len()).unwrap_or(0);
+    let finder_copy = if forks {
+        match salt % 3 {
+            0 => {
+                log.oblige("orf_finder_cloned");
+                finder0.clone()
+            }
+            1 => {
+                log.oblige("orf_finder_serde_roundtrip");
+                let text = serde_json::to_string(&finder0).expect("serialize");
+                serde_json::from_str(&text).expect("deserialize")
+            }
+            _ => {
+                log.oblige("orf_finder_clone_from_into_used_object");
+                let mut used = Finder::new(vec![b"CCC"], vec![b"GGG", b"AAA"], 7);
+                let _ = used.find_all(b"CCCAAAGGGCCCGGG").count();
+                used.clone_from(&finder0);
+                used
+            }
+        }
     } else {
-        finder0
+        finder0.clone()
     };
+    let mut seq_no = 0usize;
     for t in seqs {
+        seq_no += 1;
+        let finder: &Finder = if forks && seq_no % 2 == 0 { &finder0 } else { &finder_copy };
+        if forks && seq_no == 2 {
+            log.oblige("orf_finder_original_and_copy_both_continue");
+        }
         let mut got: Vec<(usize, usize, i8)> = vec![];
         log.call("find_all", json!({"t": bytes(t)}), || {
             let v: Vec<Orf> = finder.find_all(t).collect();
@@ -118,6 +143,23 @@ fn run_finder_opt(
                 json!({ "v": v })
             });
             log.oblige("orf_iterator_forked_at_every_position");
+            // the same iterator consumed through other methods, and fed from other kinds of iterators
+            log.call("iters", json!({"t": bytes(t)}), || {
+                let all: Vec<Orf> = finder.find_all(t).collect();
+                json!({
+                    "all": orfs_json(&all),
+                    "count": finder.find_all(t).count(),
+                    "last": orfs_json(&finder.find_all(t).last().into_iter().collect::<Vec<Orf>>()),
+                    "nth1": orfs_json(&finder.find_all(t).nth(1).into_iter().collect::<Vec<Orf>>()),
+                    "skip1": orfs_json(&finder.find_all(t).skip(1).collect::<Vec<Orf>>()),
+                    "step2": orfs_json(&finder.find_all(t).step_by(2).collect::<Vec<Orf>>()),
+                    "byval": orfs_json(&finder.find_all(t.iter().cloned()).collect::<Vec<Orf>>()),
+                    "owned": orfs_json(&finder.find_all(t.clone()).collect::<Vec<Orf>>()),
+                    "filt": orfs_json(&finder.find_all(t.iter().filter(|_| true)).collect::<Vec<Orf>>()),
+                    "flat": orfs_json(&finder.find_all(t.chunks(2).flat_map(|c| c.iter())).collect::<Vec<Orf>>()),
+                })
+            });
+            log.oblige("orf_iterator_adaptors_and_input_kinds");
             if pending_split {
                 log.oblige("orf_fork_with_found_orfs_pending");
             }
